@@ -20,7 +20,7 @@ from ref import ula
 from checks import c05
 
 PROPERTY = 'C19'
-RULE = ('Grid: every opcode slot (1792) x 10 placements of (PC, data pointers, SP, port, I) over {ROM, 0x4000-0x7FFF, 0x8000-0xBFFF, '
+RULE = ('Grid: every opcode slot (1792) x 15 placements of (PC, data pointers, SP, port, I) over {ROM, 0x4000-0x7FFF, 0x8000-0xBFFF, '
         '0xC000+} x ~45 frame positions x machines {48K, 128K bank 0 at 0xC000, 128K bank 1 at 0xC000} x both outcomes of '
         'conditional/repeating instructions, enumerated without repetition, plus Hypothesis-drawn (slot, registers, T anywhere '
         'in the frame) cases. Non-trivial: the reference model predicts a delay > 0 (at least one contended cycle hit a '
@@ -51,7 +51,9 @@ def machine_model(machine):
     return ula.M48 if machine == '48' else ula.M128
 
 
-REGION = {'rom': 0x1230, 'con': 0x5670, 'unc': 0x9AB0, 'hi': 0xCDE0}
+REGION = {'rom': 0x1230, 'con': 0x5670, 'unc': 0x9AB0, 'hi': 0xCDE0,
+          # stack pointers whose pushed/popped word straddles a contention boundary
+          'sb8': 0x8001, 'sb4': 0x4001, 'sbc': 0xC001, 'sp7': 0x7FFF}
 # (pc, data, sp, port-high, port-low, I)
 PLACEMENTS = [
     ('unc', 'unc', 'unc', 'unc', 0xFF, 'unc'),
@@ -65,6 +67,10 @@ PLACEMENTS = [
     ('hi', 'hi', 'hi', 'hi', 0xFF, 'hi'),
     ('rom', 'rom', 'unc', 'rom', 0xFE, 'rom'),
     ('hi', 'con', 'hi', 'hi', 0xFE, 'unc'),
+    ('unc', 'unc', 'sb8', 'unc', 0xFF, 'unc'),
+    ('unc', 'unc', 'sb4', 'unc', 0xFF, 'unc'),
+    ('unc', 'unc', 'sbc', 'unc', 0xFF, 'unc'),
+    ('unc', 'unc', 'sp7', 'unc', 0xFF, 'unc'),
 ]
 
 
@@ -353,6 +359,6 @@ def replay(case):
 
 MANIFEST_ENTRY = {
     'technique': 'metamorphic + reference-model differential: plain vs contended simulators from identical states over an enumerated placement x frame-position grid, delays checked against an independent ULA/bus-cycle model',
-    'level_text': 'Every opcode slot x 11 placements x a frame-position list covering all 8 pattern phases on first/middle/last display lines and both window boundaries x 3 machine layouts x taken/not-taken is enumerated on all four simulators (quick: every 3rd/5th position per placement, rotated by seed; thorough: all, plus complete 69888/70908-position sweeps for 30 representative opcodes); Hypothesis adds drawn register/T states. Delay must equal the ULA pattern summed over ref/z80ref bus cycles.',
+    'level_text': 'Every opcode slot x 15 placements x a frame-position list covering all 8 pattern phases on first/middle/last display lines and both window boundaries x 3 machine layouts x taken/not-taken is enumerated on all four simulators (quick: every 3rd/5th position per placement, rotated by seed; thorough: all, plus complete 69888/70908-position sweeps for 30 representative opcodes); Hypothesis adds drawn register/T states. Delay must equal the ULA pattern summed over ref/z80ref bus cycles.',
     'level_note': 'Trusted: ref/ula.py and the bus-cycle lists in ref/z80ref.py (from the published contention table, self-tested: cycle sums equal instruction timings). Ambiguity of trailing cycles of repeated block instructions is resolved permissively.',
 }
